@@ -2258,4 +2258,775 @@ Section Sim.
     destruct (ywhile orc f st2 st4 c body VNull y) as [v3 y3|y3|y3|v3 y3|e|x| |]; cbn [loop_post sim2] in *;
       try contradiction; exact Hfin.
   Qed.
+
+  (** ** The body of a function, from its entry point to the return *)
+
+  Lemma flat_nil : forall ps : list text, flat [] ps = ps.
+  Proof. reflexivity. Qed.
+
+  Lemma body_all : forall body, lsim body -> f3b false true true body = true ->
+    forall st3 st4 pre' kp ps', c_symbols st3 = ltab pre' SLocal kp [] ps' -> pre_ok pre' SLocal ->
+    (length ps' <= kp)%nat -> c_loops st3 = [] -> c_block_statement body st3 = Ok st4 ->
+    exists ce_b k4,
+      c_symbols st4 = ltab pre' SLocal k4 [] ps' /\ (kp <= k4)%nat /\
+      c_code st4 = c_code st3 ++ ce_b /\ cext3 st3 st4 /\ c_loops st4 = [] /\
+      (last_instruction_is OPop st4 = true -> exists ce', ce_b = ce' ++ [byte_of_opcode OPop]) /\
+      forall prog,
+        code_x prog (code_len st3)
+               (epilogue (last_instruction_is OPop st4) (last_instruction_is OReturnValue st4) ce_b) [] ->
+        consts_ok3 prog (c_constants st4) ->
+        forall fuel, callsok prog fuel ->
+        forall B tip y0 fin, funs_ok prog (y_funs y0) -> (k4 <= length (y_loc y0))%nat ->
+        Z.of_nat (length (y_loc y0)) < 65536 ->
+        body_res prog B (mk B tip [] y0 (code_len st3) fin) (yblock orc fuel st3 body y0).
+  Proof.
+    intros body IHb HF st3 st4 pre' kp ps' Hs Hp Hw Hl Hc. unfold c_block_statement in Hc.
+    destruct body as [|s0 r].
+    - (* the empty body: Null; Return *)
+      cbn [is_nil] in Hc. inversion Hc; subst st4; clear Hc.
+      exists [byte_of_opcode ONull], kp. split; [exact Hs|]. split; [lia|]. split; [reflexivity|].
+      split; [apply cext3_eq; reflexivity|]. split; [exact Hl|].
+      split; [intros N; discriminate N|].
+      intros prog Hcode _ fuel HC B tip y0 fin Hfo Hk Hn. unfold yblock, yblock_g. cbn [is_nil].
+      destruct fuel as [|f]; [exact I|]. rewrite ys_nil. cbn [body_res].
+      intros Hg ret cbp rest Hb. exists fin. split; [|exact Hfo].
+      cbn [epilogue last_instruction_is emit_opcode c_last opcode_eqb app] in Hcode.
+      change [byte_of_opcode ONull; byte_of_opcode OReturn] with ([byte_of_opcode ONull] ++ [byte_of_opcode OReturn]) in Hcode.
+      apply code_x_app in Hcode. destruct Hcode as [Ha Hb2]. change (zlength [byte_of_opcode ONull]) with 1 in Hb2.
+      pose proof (mk_step_null orc prog B tip [] y0 (code_len st3) fin [] (code_x_at1 _ _ _ _ _ Ha (fun x => x))) as Hstep1.
+      apply (reachesL_trans orc prog _ _ _ (reachesL_step orc prog _ _ Hstep1)). apply reachesL_step.
+      unfold gc_clean in Hg. destruct (objects (m_gc (y_m y0))) eqn:Eg; [|discriminate Hg].
+      exact (mk_step_return orc prog B tip [VNull] y0 (code_len st3 + 1) fin ret cbp rest [] (code_x_V _ _ _ Hb2) Hb Eg).
+    - cbn [is_nil] in Hc. apply bind_ok in Hc. destruct Hc as [st4a [Hc1 Hc]]. inversion Hc; subst st4; clear Hc.
+      set (st0 := set_symbols st3 (enter_scope (c_symbols st3))) in *.
+      assert (c_symbols st0 = ltab pre' SLocal kp ([] ++ [ps']) []) as Hs0
+        by (unfold st0; cbn [set_symbols c_symbols]; rewrite Hs; apply enter_ltab).
+      assert (length (flat ([] ++ [ps']) []) <= kp)%nat as Hw0 by (rewrite flat_enter, flat_nil; exact Hw).
+      destruct (IHb false true true st0 st4a pre' SLocal kp ([] ++ [ps']) [] HF Hs0 Hp Hw0 Hc1)
+        as [ce [nb [k4 [[CFb [Hlast [Hret [Hpop Hsim]]]] Hk4]]]].
+      assert (nb = []) as -> by (apply (cf_nn CFb); exact Hl).
+      pose proof (cf_sy CFb) as S4. cbn [app] in S4.
+      set (st4 := set_symbols st4a (leave_scope (c_symbols st4a))) in *.
+      assert (c_symbols st4 = ltab pre' SLocal k4 [] ps') as Hs4.
+      { unfold st4. cbn [set_symbols c_symbols]. rewrite S4. apply (leave_ltab pre' SLocal k4 [] ps'). }
+      assert (last_instruction_is OPop st4 = ends_pop (s0 :: r)) as Hlast' by (rewrite <- Hlast by discriminate; reflexivity).
+      assert (last_instruction_is OReturnValue st4 = ends_ret (s0 :: r)) as Hret' by (rewrite <- Hret by discriminate; reflexivity).
+      exists ce, k4. split; [exact Hs4|]. split; [exact Hk4|]. split; [exact (cf_cd CFb)|].
+      split; [exact (cf_cx CFb)|]. split.
+      { change (c_loops st4) with (c_loops st4a). rewrite (cf_lp CFb). unfold add_breaks. change (c_loops st0) with (c_loops st3).
+        rewrite Hl. reflexivity. }
+      split.
+      { intros Hpp. rewrite Hlast' in Hpp. exact (proj1 (Hpop Hpp)). }
+      intros prog Hcode Hconsts fuel HC B tip y0 fin Hfo Hk Hn. rewrite Hlast', Hret' in Hcode.
+      assert (loc_ok SLocal k4 y0) as Hloc by (intros _; split; assumption).
+      assert (0 <= cur_start (c_loops st0)) as Hst by (change (c_loops st0) with (c_loops st3); rewrite Hl; cbn; lia).
+      assert (forall ce0, code_x prog (code_len st3) ce0 [] -> env3 prog st0 st4a ce0 [] 0) as Henv.
+      { intros ce0 Hx. constructor; [exact Hx|exact Hconsts|intros ip []]. }
+      unfold yblock, yblock_g. cbn [is_nil]. fold st0.
+      pose proof (cf_len CFb) as Lb. change (code_len st0) with (code_len st3) in Lb.
+      change (code_len st4) with (code_len st4a) in *.
+      destruct (ends_pop (s0 :: r)) eqn:Ep.
+      + (* the value of the last statement is returned: ReturnValue in place of the Pop *)
+        destruct (Hpop eq_refl) as [[ce' Hce'] _]. cbn [epilogue] in Hcode. rewrite Hce', removelast_last in Hcode.
+        apply code_x_app in Hcode. destruct Hcode as [Ha Hrv].
+        assert (env3 prog st0 st4a (canon true ce) [] 0) as E0.
+        { apply Henv. unfold canon. rewrite Hce', removelast_last. exact Ha. }
+        specialize (Hsim prog 0 E0 ltac:(lia) Hst fuel HC B tip [] y0 fin VNull Hfo Hloc).
+        change (code_len st0) with (code_len st3) in Hsim.
+        destruct (ystmts orc fuel st0 (s0 :: r) VNull y0) as [v y3|y3|y3|v y3|e|x| |]; cbn [sim_l body_res] in *;
+          try exact Hsim; try exact I.
+        destruct Hsim as [fin1 [tip1 [Hsim Hfo1]]].
+        intros Hg ret cbp rest Hb. exists fin1. split; [|exact Hfo1].
+        apply (reachesL_trans orc prog _ _ _ Hsim). apply reachesL_step.
+        unfold gc_clean in Hg. destruct (objects (m_gc (y_m y3))) eqn:Eg; [|discriminate Hg].
+        assert (code_len st4a - 1 = code_len st3 + zlength ce') as Lr.
+        { rewrite Lb, Hce', zlength_app. change (zlength [byte_of_opcode OPop]) with 1. lia. }
+        rewrite Lr.
+        exact (mk_step_return_value orc prog B tip1 [] y3 _ fin1 v ret cbp rest [] (code_x_V _ _ _ Hrv) Hb Eg).
+      + destruct (ends_ret (s0 :: r)) eqn:Er.
+        * (* the body ends in antwoord *)
+          cbn [epilogue] in Hcode.
+          assert (env3 prog st0 st4a (canon false ce) [] 0) as E0 by (apply Henv; exact Hcode).
+          specialize (Hsim prog 0 E0 ltac:(lia) Hst fuel HC B tip [] y0 fin VNull Hfo Hloc).
+          change (code_len st0) with (code_len st3) in Hsim.
+          destruct (ystmts orc fuel st0 (s0 :: r) VNull y0) as [v y3|y3|y3|v y3|e|x| |] eqn:Ey; cbn [sim_l body_res] in *;
+            try exact Hsim; try exact I.
+          exfalso. exact (ystmts_ends_ret orc fuel (s0 :: r) st0 VNull y0 v y3 Er Ey).
+        * (* no value: Return *)
+          cbn [epilogue] in Hcode. apply code_x_app in Hcode. destruct Hcode as [Ha Hrt].
+          assert (env3 prog st0 st4a (canon false ce) [] 0) as E0 by (apply Henv; exact Ha).
+          specialize (Hsim prog 0 E0 ltac:(lia) Hst fuel HC B tip [] y0 fin VNull Hfo Hloc).
+          change (code_len st0) with (code_len st3) in Hsim.
+          destruct (ystmts orc fuel st0 (s0 :: r) VNull y0) as [v y3|y3|y3|v y3|e|x| |] eqn:Ey; cbn [sim_l body_res] in *;
+            try exact Hsim; try exact I.
+          destruct Hsim as [fin1 [tip1 [Hsim Hfo1]]].
+          assert (v = VNull) as -> by (apply (ystmts_no_pop_null orc fuel (s0 :: r) _ _ _ _ _ ltac:(discriminate) Ep Ey)).
+          intros Hg ret cbp rest Hb. exists fin1. split; [|exact Hfo1].
+          apply (reachesL_trans orc prog _ _ _ Hsim). apply reachesL_step.
+          unfold gc_clean in Hg. destruct (objects (m_gc (y_m y3))) eqn:Eg; [|discriminate Hg].
+          rewrite Lb.
+          exact (mk_step_return orc prog B tip1 [] y3 _ fin1 ret cbp rest [] (code_x_V _ _ _ Hrt) Hb Eg).
+  Qed.
+
+  (** ** Function literals *)
+
+  (* compile_expression (EFunction ..) after the name has been declared *)
+  Definition fun_tail (ps : list text) (body : list stmt) (sym : option symbol) (st1 : cstate) : outcome cstate :=
+    let pos_jump := code_len st1 in
+    let st2 := emit_u16 JUMP_PLACEHOLDER (emit_opcode OJump st1) in
+    let t3 := fold_left (fun t p => fst (define t p)) ps (new_context (c_symbols st2)) in
+    let st3 := set_symbols st2 t3 in
+    let pos_start := code_len st3 in
+    let outer_loops := c_loops st3 in
+    do st4 <- c_block_statement body (set_loops st3 []);
+    let st5 := set_loops st4 outer_loops in
+    let st6 := if last_instruction_is OPop st5 then emit_opcode OReturnValue (remove_last_instruction st5)
+               else if last_instruction_is OReturnValue st5 then st5
+               else emit_opcode OReturn st5 in
+    do target <- operand 16 (code_len st6);
+    do st7 <- change_jump_operand_at pos_jump target st6;
+    let '(t8, num_locals) := leave_context (c_symbols st7) in
+    let st8 := set_symbols st7 t8 in
+    do ip <- operand 32 pos_start;
+    do nl <- operand 16 (Z.of_nat num_locals);
+    let '(st9, r) := add_constant (KFun ip nl) st8 in
+    do idx <- r;
+    let st10 := emit_u16 idx (emit_opcode OConst st9) in
+    match sym with
+    | Some s =>
+        do st11 <- emit_sym (scoped s OSetGlobal OSetLocal) s st10;
+        Ok (emit_u16 idx (emit_opcode OConst st11))
+    | None => Ok st10
+    end.
+
+  Lemma ce_function3 : forall name ps body st,
+    compile_expression (EFunction name ps body) st =
+    let '(st1, sym) := fun_st1 name st in fun_tail ps body sym st1.
+  Proof.
+    intros name ps body st. rewrite ce_function. unfold fun_st1.
+    destruct (is_nil name); [reflexivity|]. destruct (define (c_symbols st) name) as [t s]. reflexivity.
+  Qed.
+
+  (* the value of the literal and the state after it *)
+  Definition yfun_tail (ps : list text) (body : list stmt) (sym : option symbol) (st1 : cstate) (y : yst) : yres val :=
+    let st3 := fun_st3 ps st1 in
+    match c_block_statement body st3 with
+    | Ok st4 =>
+        let nl := Z.of_nat (snd (leave_context (c_symbols st4))) in
+        let v := VFun (code_len st3) nl in
+        let y1 := mkY (y_m y) (y_loc y) (y_funs y ++ [mkFE (code_len st3) nl ps body st3]) in
+        YOk v (match sym with Some s => y_set s v y1 | None => y1 end)
+    | _ => YFault FUnwrap
+    end.
+
+  Lemma yfunction_tail : forall name ps body st y,
+    yfunction name ps body st y = let '(st1, sym) := fun_st1 name st in yfun_tail ps body sym st1 y.
+  Proof. intros. unfold yfunction. destruct (fun_st1 name st) as [st1 sym]. reflexivity. Qed.
+
+  Lemma operand32_ok : forall v i, operand 32 v = Ok i -> i = v.
+  Proof. intros v i H. exact (proj1 (PoolProofs.operand_ok _ _ _ H)). Qed.
+
+  Lemma function_tail_sim : forall ps body sym, lsim body -> f3b false true true body = true ->
+    forall st1 st' pre sc k1 outer cur1, c_symbols st1 = ltab pre sc k1 outer cur1 -> pre_ok pre sc ->
+    (length (flat outer cur1) <= k1)%nat ->
+    (forall s, sym = Some s -> s_scope s = sc /\ (s_index s < k1)%nat) ->
+    fun_tail ps body sym st1 = Ok st' ->
+    exists ce, cfacts3 st1 st' pre sc k1 outer cur1 ce [] /\
+      forall prog lexit, env3 prog st1 st' ce [] lexit ->
+      forall B tip ops y fin, funs_ok prog (y_funs y) -> loc_ok sc k1 y ->
+      forall ls, sim2 prog B (mk B tip ops y (code_len st1) fin) ops (code_len st') ls lexit
+                      (yfun_tail ps body sym st1 y).
+  Proof.
+    intros ps body sym IHb HFb st1 st' pre sc k1 outer cur1 Hs1 Hp Hw1 Hsym Hc. unfold fun_tail in Hc.
+    set (st2 := emit_u16 JUMP_PLACEHOLDER (emit_opcode OJump st1)) in *.
+    set (pre' := ltab pre sc k1 outer cur1).
+    assert (fold_left (fun t p => fst (define t p)) ps (new_context (c_symbols st2)) = ltab pre' SLocal (length ps) [] ps) as Et3.
+    { change (c_symbols st2) with (c_symbols st1). rewrite Hs1, new_context_ltab, defines_ltab.
+      rewrite Nat.add_0_r. reflexivity. }
+    rewrite Et3 in Hc.
+    change (set_loops (set_symbols st2 (ltab pre' SLocal (length ps) [] ps)) []) with
+      (set_loops (set_symbols st2 (ltab pre' SLocal (length ps) [] ps)) []) in Hc.
+    assert (fun_st3 ps st1 = set_loops (set_symbols st2 (ltab pre' SLocal (length ps) [] ps)) []) as Est3.
+    { unfold fun_st3. fold st2. rewrite Et3. reflexivity. }
+    set (st3 := set_loops (set_symbols st2 (ltab pre' SLocal (length ps) [] ps)) []) in *.
+    cbv zeta in Hc.
+    apply bind_ok in Hc. destruct Hc as [st4 [H4 Hc]].
+    assert (pre_ok pre' SLocal) as Hp'. { unfold pre'. apply pre_ok_new; assumption. }
+    destruct (body_all body IHb HFb st3 st4 pre' (length ps) ps eq_refl Hp' (Nat.le_refl _) eq_refl H4)
+      as [ce_b [k4 [Hs4 [Hk4 [Hcode4 [Hx4 [Hl4 [Hpop4 Hbody]]]]]]]].
+    change (c_loops (set_symbols st2 (ltab pre' SLocal (length ps) [] ps))) with (c_loops st1) in Hc.
+    set (st5 := set_loops st4 (c_loops st1)) in *.
+    set (pop := last_instruction_is OPop st4). set (ret := last_instruction_is OReturnValue st4).
+    change (last_instruction_is OPop st5) with pop in Hc. change (last_instruction_is OReturnValue st5) with ret in Hc.
+    set (st6 := if pop then emit_opcode OReturnValue (remove_last_instruction st5)
+                else if ret then st5 else emit_opcode OReturn st5) in *.
+    set (epi := epilogue pop ret ce_b).
+    assert (c_code st6 = c_code st3 ++ epi /\ c_symbols st6 = c_symbols st4 /\ c_constants st6 = c_constants st4 /\
+            c_loops st6 = c_loops st1) as [Hcode6 [Hs6 [Hk6 Hl6]]].
+    { unfold st6, epi, epilogue. destruct pop eqn:Epop.
+      - destruct (Hpop4 Epop) as [ce' Hce']. cbn [emit_opcode remove_last_instruction c_code c_symbols c_constants c_loops set_loops].
+        unfold st5. cbn [set_loops c_code c_symbols c_constants c_loops].
+        rewrite Hcode4, Hce', app_assoc, !removelast_last, <- app_assoc. auto.
+      - destruct ret; cbn [emit_opcode c_code c_symbols c_constants c_loops set_loops st5];
+          rewrite Hcode4, <- ?app_assoc; auto. }
+    apply bind_ok in Hc. destruct Hc as [target [Ht Hc]]. destruct (operand16_cl _ _ Ht) as [-> Rt]. clear Ht.
+    apply bind_ok in Hc. destruct Hc as [st7 [H7 Hc]].
+    destruct (change_jump_spec _ _ _ _ (code_len_nonneg st1) H7) as [A1 [A2 [A3 [_ [_ [A6 [_ A8]]]]]]].
+    pose proof (code_len_length _ _ A6) as L7.
+    set (PHlo := JUMP_PLACEHOLDER mod 256) in *. set (PHhi := (JUMP_PLACEHOLDER / 256) mod 256) in *.
+    assert (c_code st3 = c_code st1 ++ [byte_of_opcode OJump; PHlo; PHhi]) as Hcode3.
+    { unfold st3, st2. cbn [set_loops set_symbols emit_u16 emit_opcode c_code]. rewrite <- app_assoc. reflexivity. }
+    set (T := code_len st6) in *.
+    assert (c_code st7 = c_code st1 ++ [byte_of_opcode OJump; T mod 256; (T / 256) mod 256] ++ epi) as Hcode7.
+    { rewrite A8, Hcode6, Hcode3, <- app_assoc. cbn [app]. unfold code_len, zlength. rewrite Nat2Z.id.
+      apply patch_operand. }
+    rewrite A1, Hs6, Hs4, leave_context_ltab in Hc.
+    set (st8 := set_symbols st7 pre') in *.
+    apply bind_ok in Hc. destruct Hc as [ip [Hip Hc]]. apply operand32_ok in Hip. subst ip.
+    apply bind_ok in Hc. destruct Hc as [nl [Hnl Hc]].
+    apply operand16_ok in Hnl; [|lia]. destruct Hnl as [-> Rnl].
+    change (code_len (set_symbols st2 (ltab pre' SLocal (length ps) [] ps))) with (code_len st3) in Hc.
+    destruct (add_constant (KFun (code_len st3) (Z.of_nat k4)) st8) as [st9 r] eqn:E9.
+    destruct (add_constant_k3 _ st8 st9 r (or_intror (ex_intro _ _ (ex_intro _ _ eq_refl))) E9)
+      as [Hs9 [Hcode9 [Hl9 [_ [Hx9 Hi9]]]]].
+    apply bind_ok in Hc. destruct Hc as [idx [-> Hc]]. destruct (Hi9 idx eq_refl) as [Ridx Hnth9].
+    set (st10 := emit_u16 idx (emit_opcode OConst st9)) in *.
+    set (J3 := [byte_of_opcode OJump; T mod 256; (T / 256) mod 256]).
+    set (C3 := [byte_of_opcode OConst; idx mod 256; (idx / 256) mod 256]).
+    assert (c_code st10 = c_code st1 ++ J3 ++ epi ++ C3) as Hcode10.
+    { unfold st10. cbn [emit_u16 emit_opcode c_code]. rewrite Hcode9. change (c_code st8) with (c_code st7).
+      rewrite Hcode7. unfold J3, C3. rewrite <- !app_assoc. reflexivity. }
+    assert (c_symbols st10 = ltab pre sc k1 outer cur1) as Hs10.
+    { unfold st10. cbn [emit_u16 emit_opcode c_symbols]. rewrite Hs9. unfold st8. cbn [set_symbols c_symbols]. reflexivity. }
+    assert (c_loops st10 = c_loops st1) as Hl10.
+    { unfold st10. cbn [emit_u16 emit_opcode c_loops]. rewrite Hl9. unfold st8. cbn [set_symbols c_loops]. congruence. }
+    assert (cext3 st1 st10) as Hx10.
+    { apply (cext3_trans _ st4).
+      - destruct Hx4 as [kx [E F]]. exists kx. split; [exact E|exact F].
+      - apply (cext3_trans _ st8); [apply cext3_eq; unfold st8; cbn [set_symbols c_constants]; congruence|].
+        destruct Hx9 as [kx [E F]]. exists kx. split; [exact E|exact F]. }
+    assert (code_len st6 = code_len st3 + zlength epi) as L6 by (apply code_len_app; exact Hcode6).
+    assert (code_len st3 = code_len st1 + 3) as L3.
+    { rewrite (code_len_app _ _ _ Hcode3). rewrite zlength3. reflexivity. }
+    assert (code_len st10 = T + 3) as L10.
+    { rewrite (code_len_app _ _ _ Hcode10). unfold J3, C3. rewrite !zlength_app, !zlength3. unfold T. lia. }
+    (* the new entry of the table *)
+    set (fe := mkFE (code_len st3) (Z.of_nat k4) ps body st3).
+    assert (forall prog, code_x prog (code_len st3) epi [] -> consts_ok3 prog (c_constants st4) -> fentry_ok prog fe) as Hfe.
+    { intros prog Hx Hk. constructor; cbn [fe fe_st fe_ps fe_ip fe_body fe_n].
+      - exists pre'. split; [exact Hp'|reflexivity].
+      - reflexivity.
+      - reflexivity.
+      - exact HFb.
+      - exists st4, ce_b. split; [exact H4|]. split; [exact Hcode4|]. split; [rewrite Hs4, leave_context_ltab; reflexivity|].
+        split; [lia|]. split; [exact Hk|exact Hx]. }
+    assert (yfun_tail ps body sym st1 =
+            fun y => let v := VFun (code_len st3) (Z.of_nat k4) in
+                     let y1 := mkY (y_m y) (y_loc y) (y_funs y ++ [fe]) in
+                     YOk v (match sym with Some s => y_set s v y1 | None => y1 end)) as Eyf.
+    { unfold yfun_tail. rewrite Est3, H4, Hs4, leave_context_ltab. reflexivity. }
+    rewrite Eyf.
+    (* the common part of the run: Jump over the body, Const *)
+    assert (forall prog lexit st'' X, cext3 st10 st'' -> env3 prog st1 st'' (J3 ++ epi ++ C3 ++ X) [] lexit ->
+              fentry_ok prog fe /\
+              forall B tip ops y fin,
+                reachesL orc prog (mk B tip ops y (code_len st1) fin)
+                         (mk B tip (VFun (code_len st3) (Z.of_nat k4) :: ops) y (code_len st10) fin) /\
+                code_x prog (code_len st10) X []) as Hrun.
+    { intros prog lexit st'' X Hx'' [E1 E2 _]. cbn [brk_holes flat_map] in E1.
+      apply code_x_app in E1. destruct E1 as [EJ E1]. unfold J3 in E1 at 1. rewrite zlength3, <- L3 in E1.
+      apply code_x_app in E1. destruct E1 as [Eepi E1]. rewrite <- L6 in E1. fold T in E1.
+      apply code_x_app in E1. destruct E1 as [EC EX]. unfold C3 in EX at 1. rewrite zlength3, <- L10 in EX.
+      assert (consts_ok3 prog (c_constants st10)) as E10 by exact (consts_ok3_ext prog _ _ Hx'' E2).
+      split.
+      - apply Hfe; [exact Eepi|].
+        apply (consts_ok3_ext prog st4 st10); [|exact E10].
+        apply (cext3_trans _ st8); [apply cext3_eq; unfold st8; cbn [set_symbols c_constants]; congruence|].
+        destruct Hx9 as [kx [E F]]. exists kx. split; [exact E|exact F].
+      - intros B tip ops y fin. split; [|exact EX].
+        pose proof (mk_step_jump orc prog B tip ops y (code_len st1) fin T []
+                      (code_x_at3 _ _ _ _ _ _ _ EJ (holes_nil _ _)) Rt) as Hj.
+        apply (reachesL_trans orc prog _ _ _ (reachesL_step orc prog _ _ Hj)). apply reachesL_step.
+        rewrite L10.
+        apply (mk_step_const_fun orc prog B tip ops y T fin idx _ _ [] (code_x_at3 _ _ _ _ _ _ _ EC (holes_nil _ _)) Ridx).
+        assert (nth_error (c_constants st10) (Z.to_nat idx) = Some (KFun (code_len st3) (Z.of_nat k4))) as Hn10 by exact Hnth9.
+        exact (E10 _ _ Hn10 (or_intror (ex_intro _ _ (ex_intro _ _ eq_refl)))). }
+    destruct sym as [s|].
+    - (* a named function: store it in its variable, push it again *)
+      apply bind_ok in Hc. destruct Hc as [st11 [H11 Hc]]. inversion Hc; subst st'; clear Hc.
+      destruct (Hsym s eq_refl) as [Esc Hidx].
+      destruct (cfacts3_emit_sym _ _ _ _ pre sc k1 outer cur1 Hs10 Hw1 H11) as [Rs CF11].
+      set (S3 := [byte_of_opcode (scoped s OSetGlobal OSetLocal); Z.of_nat (s_index s) mod 256;
+                  (Z.of_nat (s_index s) / 256) mod 256]) in *.
+      pose proof (cf_sy CF11) as Hs11. pose proof (cf_len CF11) as L11. unfold S3 in L11. rewrite zlength3 in L11.
+      pose proof (cfacts3_emit_u16op OConst idx st11 pre sc k1 outer cur1 Hs11 Hw1) as CF12. fold C3 in CF12.
+      pose proof (cf_tr CF11 CF12) as CF1012.
+      exists (J3 ++ epi ++ C3 ++ S3 ++ C3). split.
+      { constructor.
+        - exact (cf_sy CF1012).
+        - exact Hw1.
+        - rewrite (cf_cd CF1012), Hcode10, <- !app_assoc. reflexivity.
+        - exact (cext3_trans _ _ _ Hx10 (cf_cx CF1012)).
+        - rewrite add_breaks_nil, (cf_lp CF1012), add_breaks_nil. exact Hl10.
+        - reflexivity.
+        - cbn [brk_ok]. rewrite (cf_len CF1012). pose proof (zlength_nonneg _ (S3 ++ C3)).
+          pose proof (zlength_nonneg _ epi). unfold T in L10. lia. }
+      intros prog lexit E B tip ops y fin Hfo Hloc ls.
+      destruct (Hrun prog lexit _ (S3 ++ C3) (cf_cx CF1012) E) as [Hfeok Hrun'].
+      destruct (Hrun' B tip ops y fin) as [Hreach EX].
+      apply code_x_app in EX. destruct EX as [ES EC2]. unfold S3 in EC2 at 1. rewrite zlength3, <- L11 in EC2.
+      cbv zeta. cbn [sim2]. exists fin, tip. split.
+      2:{ unfold y_set. destruct (s_scope s); cbn [y_funs]; apply funs_ok_snoc; assumption. }
+      apply (reachesL_trans orc prog _ _ _ Hreach).
+      set (v := VFun (code_len st3) (Z.of_nat k4)). set (y1 := mkY (y_m y) (y_loc y) (y_funs y ++ [fe])).
+      assert (mk B tip (v :: ops) y (code_len st10) fin = mk B tip (v :: ops) y1 (code_len st10) fin) as -> by reflexivity.
+      pose proof (code_x_at3 _ _ _ _ _ _ _ ES (holes_nil _ _)) as Hat1.
+      pose proof (code_x_at3 _ _ _ _ _ _ _ EC2 (holes_nil _ _)) as Hat2.
+      assert (step orc prog (mk B tip (v :: ops) y1 (code_len st10) fin)
+              = Ok (Continue (mk B tip ops (y_set s v y1) (code_len st11) fin))) as Hstep1.
+      { unfold y_set. rewrite L11. unfold S3, scoped in Hat1. destruct (s_scope s) eqn:Es.
+        - assert (sc = SLocal) as Esc' by congruence. destruct (Hloc Esc') as [Hk _].
+          apply (mk_step_set_local orc prog B tip ops y1 (code_len st10) fin (s_index s) v [] Hat1 Rs).
+          cbn [y1 y_loc]. lia.
+        - rewrite (mk_step_set_global orc prog B tip ops y1 (code_len st10) fin _ v [] Hat1 Rs).
+          rewrite Nat2Z.id. reflexivity. }
+      apply (reachesL_trans orc prog _ _ _ (reachesL_step orc prog _ _ Hstep1)). apply reachesL_step.
+      rewrite (cf_len CF12). unfold C3. rewrite zlength3.
+      apply (mk_step_const_fun orc prog B tip ops (y_set s v y1) (code_len st11) fin idx _ _ [] Hat2 Ridx).
+      destruct E as [_ E2 _].
+      assert (nth_error (c_constants (emit_u16 idx (emit_opcode OConst st11))) (Z.to_nat idx)
+              = Some (KFun (code_len st3) (Z.of_nat k4))) as Hn12.
+      { destruct (cf_cx CF1012) as [kx [Ek _]]. rewrite Ek. rewrite nth_error_app1; [exact Hnth9|].
+        apply nth_error_Some. change (c_constants st10) with (c_constants st9). rewrite Hnth9. discriminate. }
+      exact (E2 _ _ Hn12 (or_intror (ex_intro _ _ (ex_intro _ _ eq_refl)))).
+    - (* an anonymous function *)
+      inversion Hc; subst st'; clear Hc.
+      exists (J3 ++ epi ++ C3 ++ []). split.
+      { constructor.
+        - exact Hs10.
+        - exact Hw1.
+        - rewrite Hcode10, app_nil_r. reflexivity.
+        - exact Hx10.
+        - rewrite add_breaks_nil. exact Hl10.
+        - reflexivity.
+        - cbn [brk_ok]. pose proof (zlength_nonneg _ epi). unfold T in L10. lia. }
+      intros prog lexit E B tip ops y fin Hfo Hloc ls.
+      destruct (Hrun prog lexit _ [] (cext3_refl st10) E) as [Hfeok Hrun'].
+      destruct (Hrun' B tip ops y fin) as [Hreach _].
+      cbv zeta. cbn [sim2]. exists fin, tip. split; [exact Hreach|]. cbn [y_funs]. apply funs_ok_snoc; assumption.
+  Qed.
+
+  Lemma esim_function : forall name ps body, lsim body -> esim (EFunction name ps body).
+  Proof.
+    intros name ps body IHb lp fa fn st st' pre sc k outer cur HF Hs Hp Hw Hc.
+    rewrite f3e_function in HF. apply andb_prop in HF. destruct HF as [HF HFb]. apply andb_prop in HF.
+    destruct HF as [_ Hnil]. destruct name as [|c0 nm]; [|discriminate Hnil].
+    rewrite ce_function3 in Hc. cbn [fun_st1 is_nil] in Hc.
+    destruct (function_tail_sim ps body None IHb HFb st st' pre sc k outer cur Hs Hp Hw
+                ltac:(intros s0 N; discriminate N) Hc) as [ce [CF Hsim]].
+    exists ce, [], k. split; [exact CF|]. split; [lia|].
+    intros prog lexit E Hle Hst fuel HC B tip ops y fin Hfo Hloc. destruct fuel as [|f]; [exact I|].
+    rewrite ye_function, yfunction_tail. cbn [fun_st1 is_nil].
+    exact (Hsim prog lexit E B tip ops y fin Hfo Hloc _).
+  Qed.
+
+  (* a named function as a statement declares its name in the scope of the statement list *)
+  Lemma ssim_fundecl : forall c0 nm ps body, lsim body -> ssim (SExpr (EFunction (c0 :: nm) ps body)).
+  Proof.
+    intros c0 nm ps body IHb r IHr lp fa fn st st' pre sc k outer cur HF Hs Hp Hw Hc.
+    rewrite f3b_cons in HF. apply andb_prop in HF. destruct HF as [HFe HFr].
+    rewrite f3s_expr_named in HFe. apply andb_prop in HFe. destruct HFe as [_ HFb].
+    set (name := c0 :: nm) in *.
+    cbn [compile_statements] in Hc. apply bind_ok in Hc. destruct Hc as [st2 [H2 Hc]].
+    pose proof H2 as H2'. rewrite cs_expr in H2. apply bind_ok in H2. destruct H2 as [stF [H1 H2]].
+    inversion H2; subst st2; clear H2.
+    rewrite ce_function3 in H1.
+    assert (fun_st1 name st = (set_symbols st (ltab pre sc (S k) outer (cur ++ [name])),
+                               Some (mkSymbol sc (length (flat outer cur))))) as Est1.
+    { unfold fun_st1, name. cbn [is_nil]. fold name. rewrite Hs, define_ltab. reflexivity. }
+    rewrite Est1 in H1.
+    set (st1 := set_symbols st (ltab pre sc (S k) outer (cur ++ [name]))) in *.
+    set (sym := mkSymbol sc (length (flat outer cur))) in *.
+    assert (length (flat outer (cur ++ [name])) <= S k)%nat as Hw1.
+    { rewrite flat_snoc, app_length. cbn [length]. lia. }
+    destruct (function_tail_sim ps body (Some sym) IHb HFb st1 stF pre sc (S k) outer (cur ++ [name]) eq_refl Hp Hw1
+                ltac:(intros s0 N; inversion N; subst s0; unfold sym; cbn [s_scope s_index]; split; [reflexivity|lia]) H1)
+      as [ce [CF0 Hsim]].
+    pose proof (cfacts3_in _ _ _ _ _ _ _ _ _ _ CF0) as CFe.
+    pose proof (cf_sy CFe) as HsF.
+    pose proof (cfacts3_emit_opcode OPop stF pre sc (S k) outer (cur ++ [name]) HsF Hw1) as CFp.
+    pose proof (cf_tr CFe CFp) as CFh. rewrite app_nil_r in CFh.
+    destruct (cons_sim (SExpr (EFunction name ps body)) r true (fun f y => yeval orc f st (EFunction name ps body) y)
+                st (emit_opcode OPop stF) st' pre sc (S k) outer cur (ce ++ [byte_of_opcode OPop]) [] lp fa fn)
+      as [ce2 [nb2 [k' [L Hk']]]]; try assumption; try reflexivity.
+    - split.
+      + intros _. split; [exists ce; reflexivity|]. rewrite code_len_emit_opcode.
+        replace (code_len stF + 1 - 1) with (code_len stF) by lia. exact (cf_bk CFe).
+      + intros prog lexit E Hle Hst fuel HC B tip ops y fin Hfo Hloc. unfold canon in E. rewrite removelast_last in E.
+        assert (env3 prog st1 stF ce [] lexit) as Ee.
+        { destruct E as [A1 A2 A3]. constructor; assumption. }
+        destruct fuel as [|f]; [exact I|].
+        rewrite ye_function, yfunction_tail, Est1. fold st1 sym.
+        specialize (Hsim prog lexit Ee B tip ops y fin Hfo Hloc (cur_start (c_loops st))).
+        change (code_len st1) with (code_len st) in Hsim. rewrite code_len_emit_opcode.
+        destruct (yfun_tail ps body (Some sym) st1 y); try exact Hsim.
+        cbn [sim_l sim2] in *. replace (code_len stF + 1 - 1) with (code_len stF) by lia. exact Hsim.
+    - intros f y. apply (proj1 (yeval_loc_len orc f)).
+    - intros f last y. rewrite ys_expr. fold name. rewrite H2'. reflexivity.
+    - exists ce2, nb2, k'. split; [exact L|lia].
+  Qed.
+
+  (** ** Calls *)
+
+  (* the arguments, left to right: their values end up on the stack, the last one on top *)
+  Definition sim_a (prog : program) (B : base) (s : vm) (ops : list val) (ip' : Z) (r : yres (list val)) : Prop :=
+    match r with
+    | YOk vs y' => exists fin' tip', reachesL orc prog s (mk B tip' (rev vs ++ ops) y' ip' fin') /\ funs_ok prog (y_funs y')
+    | YBrk _ | YCnt _ => False
+    | YRet v y' => forall ret cbp rest, b_rest B = mkFrame ret cbp :: rest ->
+                   exists fin', reachesL orc prog s (ret_state B ret cbp rest v y' fin') /\ funs_ok prog (y_funs y')
+    | YErr k => stopsL orc prog s (Err k)
+    | YFault f => stopsL orc prog s (Fault f)
+    | YExcl => exclL orc prog s
+    | YFuel => True
+    end.
+
+  Definition asim (args : list expr) : Prop :=
+    forall fa fn st st' pre sc k outer cur, f3es fa fn args = true ->
+    c_symbols st = ltab pre sc k outer cur -> pre_ok pre sc -> (length (flat outer cur) <= k)%nat ->
+    CompilerNames.compile_exprs args st = Ok st' ->
+    exists ce nb k', cfacts3 st st' pre sc k' outer cur ce nb /\ (k <= k')%nat /\
+      forall prog lexit, env3 prog st st' ce nb lexit -> 0 <= lexit < 65536 ->
+      0 <= cur_start (c_loops st) ->
+      forall fuel, callsok prog fuel ->
+      forall B tip ops y fin, funs_ok prog (y_funs y) -> loc_ok sc k' y ->
+      sim_a prog B (mk B tip ops y (code_len st) fin) ops (code_len st') (yargs orc fuel st args y).
+
+  Lemma yargs_len : forall f args st y vs y', yargs orc f st args y = YOk vs y' -> length vs = length args.
+  Proof.
+    intros f. induction args as [|x r IH]; intros st y vs y' H.
+    - rewrite ya_nil in H. inversion H; reflexivity.
+    - rewrite ya_cons in H. destruct (yeval orc f st x y) as [v y1| | | | | | |]; try discriminate H. cbn [ybind] in H.
+      destruct (compile_expression x st) as [st1| | |]; try discriminate H.
+      destruct (yargs orc f st1 r y1) as [vs1 y2| | | | | | |] eqn:E; try discriminate H. cbn [ybind] in H.
+      inversion H; subst. cbn [length]. rewrite (IH _ _ _ _ E). reflexivity.
+  Qed.
+
+  Lemma asim_all : forall args, Forall esim args -> asim args.
+  Proof.
+    intros args H. induction H as [|x r IHx Hr IHr]; intros fa fn st st' pre sc k outer cur HF Hs Hp Hw Hc.
+    - cbn [CompilerNames.compile_exprs] in Hc. inversion Hc; subst st'; clear Hc.
+      exists [], [], k. split; [apply cfacts3_emit; auto; rewrite app_nil_r; reflexivity|]. split; [lia|].
+      intros prog lexit _ _ _ fuel HC B tip ops y fin Hfo Hloc. rewrite ya_nil. cbn [sim_a rev app].
+      exists fin, tip. split; [apply reachesL_refl|exact Hfo].
+    - rewrite f3es_cons in HF. apply andb_prop in HF. destruct HF as [HFx HFr].
+      cbn [CompilerNames.compile_exprs] in Hc. apply bind_ok in Hc. destruct Hc as [st1 [H1 Hc]].
+      destruct (IHx false fa fn st st1 pre sc k outer cur HFx Hs Hp Hw H1) as [ce1 [nb1 [k1 [CF1 [Hk1 Hsim1]]]]].
+      destruct (IHr fa fn st1 st' pre sc k1 outer cur HFr (cf_sy CF1) Hp (cf_w CF1) Hc) as [ce2 [nb2 [k2 [CF2 [Hk2 Hsim2]]]]].
+      exists (ce1 ++ ce2), (nb1 ++ nb2), k2. split; [exact (cf_tr CF1 CF2)|]. split; [lia|].
+      intros prog lexit E Hle Hst fuel HC B tip ops y fin Hfo Hloc. rewrite ya_cons, H1.
+      destruct (env_two CF1 CF2 E) as [EL ER].
+      specialize (Hsim1 prog lexit EL Hle Hst fuel HC B tip ops y fin Hfo (loc_ok_le _ _ _ _ Hk2 Hloc)).
+      destruct (yeval orc fuel st x y) as [a y1|y1|y1|a y1|k0|x0| |] eqn:E1; cbn [ybind sim_a];
+        try (nosig_contra fuel x fa fn st y HFx E1); try exact Hsim1.
+      loclen fuel x st y E1 LL1.
+      cbn [sim2] in Hsim1. destruct Hsim1 as [fin1 [tip1 [Hsim1 Hfo1]]].
+      assert (0 <= cur_start (c_loops st1)) as Hst1 by (rewrite (cf_lp CF1), cur_start_add; exact Hst).
+      specialize (Hsim2 prog lexit ER Hle Hst1 fuel HC B tip1 (a :: ops) y1 fin1 Hfo1 (loc_ok_len _ _ _ _ LL1 Hloc)).
+      destruct (yargs orc fuel st1 r y1) as [vs y2|y2|y2|v y2|k0|x0| |]; cbn [ybind sim_a] in *.
+      + destruct Hsim2 as [fin2 [tip2 [Hsim2 Hfo2]]]. exists fin2, tip2. split; [|exact Hfo2].
+        cbn [rev]. rewrite <- app_assoc. cbn [app]. exact (reachesL_trans orc prog _ _ _ Hsim1 Hsim2).
+      + contradiction.
+      + contradiction.
+      + intros ret cbp rest Hb. destruct (Hsim2 ret cbp rest Hb) as [fin2 [Hsim2' Hfo2]]. exists fin2.
+        split; [exact (reachesL_trans orc prog _ _ _ Hsim1 Hsim2')|exact Hfo2].
+      + refine (reachesL_stopsL orc _ _ _ _ _ Hsim1 Hsim2). reflexivity.
+      + refine (reachesL_stopsL orc _ _ _ _ _ Hsim1 Hsim2). reflexivity.
+      + exact (reachesL_excl orc prog _ _ Hsim1 Hsim2).
+      + exact I.
+  Qed.
+
+  Lemma yblock_nosig : forall f b fa fn st y, f3b false fa fn b = true -> nosig (yblock orc f st b y).
+  Proof.
+    intros f b fa fn st y Hb. unfold yblock, yblock_g. destruct (is_nil b).
+    - apply (proj2 (proj2 (yeval_nosig orc f)) [] fa fn). reflexivity.
+    - apply (proj2 (proj2 (yeval_nosig orc f)) b fa fn). exact Hb.
+  Qed.
+
+  Lemma esim_call : forall fn_ args, esim fn_ -> Forall esim args -> esim (ECall fn_ args).
+  Proof.
+    intros fn_ args IHf IHa0 lp fa fn st st' pre sc k outer cur HF Hs Hp Hw Hc.
+    pose proof (asim_all args IHa0) as IHa.
+    rewrite f3e_call in HF. apply andb_prop in HF. destruct HF as [HF HFf]. apply andb_prop in HF.
+    destruct HF as [Hnb HFa]. apply negb_true_iff in Hnb.
+    rewrite CompilerNames.ce_call in Hc. apply bind_ok in Hc. destruct Hc as [st1 [H1 Hc]].
+    assert (match fn_ with EIdent nm => assoc_text nm builtin_names | _ => None end = None) as Enb.
+    { destruct fn_; try reflexivity. cbn [is_builtin_callee] in Hnb. unfold is_builtin_name in Hnb.
+      destruct (assoc_text s builtin_names); [discriminate Hnb|reflexivity]. }
+    cbv zeta in Hc. rewrite Enb in Hc.
+    apply bind_ok in Hc. destruct Hc as [st2 [H2 Hc]]. apply bind_ok in Hc. destruct Hc as [n [Hn Hc]].
+    inversion Hc; subst st'; clear Hc.
+    destruct (PoolProofs.operand_ok _ _ _ Hn) as [-> Rn]. clear Hn.
+    destruct (IHa fa fn st st1 pre sc k outer cur HFa Hs Hp Hw H1) as [ce1 [nb1 [k1 [CF1 [Hk1 Hsim1]]]]].
+    destruct (IHf false fa fn st1 st2 pre sc k1 outer cur HFf (cf_sy CF1) Hp (cf_w CF1) H2) as [ce2 [nb2 [k2 [CF2 [Hk2 Hsim2]]]]].
+    set (st3 := emit_opcode OCall st2) in *.
+    assert (cfacts3 st2 (emit_u8 (zlength args) st3) pre sc k2 outer cur [byte_of_opcode OCall; zlength args] []) as CF3.
+    { apply cfacts3_emit; try reflexivity; [exact (cf_sy CF2)|exact (cf_w CF2)|].
+      unfold st3. cbn [emit_u8 emit_opcode c_code]. rewrite <- app_assoc. reflexivity. }
+    pose proof (cf_tr CF2 CF3) as CF23. pose proof (cf_tr CF1 CF23) as CF.
+    eexists; eexists; exists k2. split; [exact CF|]. split; [lia|].
+    intros prog lexit E Hle Hst fuel HC B tip ops y fin Hfo Hloc. destruct fuel as [|f]; [exact I|].
+    rewrite ye_call, H1. pose proof (callsok_S _ _ HC) as HC'.
+    destruct (env_two CF1 CF23 E) as [EL ER]. destruct (env_two CF2 CF3 ER) as [ERL [ERc _ _]].
+    specialize (Hsim1 prog lexit EL Hle Hst f HC' B tip ops y fin Hfo (loc_ok_le _ _ _ _ Hk2 Hloc)).
+    pose proof (yargs_nosig orc f args fa fn st y HFa) as Nsa.
+    pose proof (yargs_loc_len orc f args st y) as LLa.
+    destruct (yargs orc f st args y) as [vs y1|y1|y1|v y1|k0|x0| |] eqn:Ea; cbn [ybind sim_a nosig yres_loc] in *;
+      try contradiction; try exact Hsim1.
+    pose proof (yargs_len f args st y vs y1 Ea) as Lvs.
+    destruct Hsim1 as [fin1 [tip1 [Hsim1 Hfo1]]].
+    assert (0 <= cur_start (c_loops st1)) as Hst1 by (rewrite (cf_lp CF1), cur_start_add; exact Hst).
+    specialize (Hsim2 prog lexit ERL Hle Hst1 f HC' B tip1 (rev vs ++ ops) y1 fin1 Hfo1 (loc_ok_len _ _ _ _ LLa Hloc)).
+    rewrite (cf_lp CF1), cur_start_add in Hsim2.
+    destruct (yeval orc f st1 fn_ y1) as [fv y2|y2|y2|fv y2|k0|x0| |] eqn:Ef; cbn [ybind];
+      try (nosig_contra f fn_ fa fn st1 y1 HFf Ef); try (exc1 Hsim1 Hsim2).
+    loclen f fn_ st1 y1 Ef LLf.
+    cbn [sim2] in Hsim2. destruct Hsim2 as [fin2 [tip2 [Hsim2 Hfo2]]].
+    set (sc0 := mk B tip2 (fv :: rev vs ++ ops) y2 (code_len st2) fin2) in *.
+    assert (reachesL orc prog (mk B tip ops y (code_len st) fin) sc0) as Hsc
+      by exact (reachesL_trans orc prog _ _ _ Hsim1 Hsim2).
+    cbn [brk_holes flat_map] in ERc. pose proof (code_x_V _ _ _ ERc) as Hcall.
+    assert (zlength args = zlength vs) as Lz by (unfold zlength; rewrite Lvs; reflexivity).
+    rewrite Lz in Hcall.
+    assert (code_len (emit_u8 (zlength args) st3) = code_len st2 + 2) as L'.
+    { rewrite (cf_len CF3). reflexivity. }
+    unfold ycall, ycall_g.
+    destruct fv as [| | |fip n| | |];
+      try (cbn [sim2]; refine (reachesL_stopsL orc _ _ _ _ _ Hsc _); [reflexivity|]; apply stopsL_now;
+           apply (VMStepProofs.call_non_function orc prog sc0 (zlength vs) _ ((rev vs ++ ops) ++ rev (y_loc y2) ++ b_below B) []
+                    Hcall eq_refl); intros; discriminate).
+    destruct (n <? zlength vs) eqn:En.
+    { apply Z.ltb_lt in En. cbn [sim2]. refine (reachesL_stopsL orc _ _ _ _ _ Hsc _); [reflexivity|]. apply stopsL_now.
+      exact (VMStepProofs.arity_checked orc prog sc0 (zlength vs) fip n ((rev vs ++ ops) ++ rev (y_loc y2) ++ b_below B) []
+               Hcall eq_refl En). }
+    apply Z.ltb_ge in En.
+    destruct (find_fun fip (y_funs y2)) as [fe|] eqn:Eff; [|exact I].
+    destruct (find_fun_ok prog _ _ _ Hfo2 Eff) as [Hfe Hfip].
+    destruct (fe_n fe =? n) eqn:Een; cbn [negb]; [|exact I]. apply Z.eqb_eq in Een.
+    set (y0 := mkY (y_m y2) (vs ++ repeat_val VNull (Z.to_nat (n - zlength vs))) (y_funs y2)).
+    set (B' := mkB (ops ++ rev (y_loc y2) ++ b_below B) (mkFrame (code_len st2 + 2) (zlength (b_below B)) :: b_rest B) (b_out B)).
+    set (s0 := mk B' fip [] y0 fip fin2).
+    assert (Z.of_nat (length (y_loc y0)) = fe_n fe) as Ly0.
+    { unfold y0. cbn [y_loc]. rewrite app_length, length_repeat_val. unfold zlength in *.
+      pose proof (Zle_0_nat (length vs)). lia. }
+    pose proof (HC f ltac:(lia) fe Hfe B' fip y0 fin2 Hfo2 Ly0) as Hbody. rewrite Hfip in Hbody. fold s0 in Hbody.
+    pose proof (yblock_nosig f (fe_body fe) true true (fe_st fe) y0 (fo_f3 _ _ Hfe)) as Nsb.
+    change (yblock_g (ystmts orc f) (fe_st fe) (fe_body fe) y0) with (yblock orc f (fe_st fe) (fe_body fe) y0).
+    destruct (mk_step_call orc prog B tip2 ops y2 (code_len st2) fin2 fip n vs [] Hcall En) as [Hlim|Hstep].
+    { (* the stack / frame limit: an excluded state *)
+      fold sc0 in Hlim.
+      assert (exclL orc prog (mk B tip ops y (code_len st) fin)) as Hx
+        by (apply (reachesL_excl orc prog _ sc0 Hsc); apply exclL_now; left; exact Hlim).
+      destruct (yblock orc f (fe_st fe) (fe_body fe) y0) as [v y3|y3|y3|v y3|e|x| |]; cbn [body_res nosig] in *;
+        try contradiction.
+      - destruct (gc_clean y3) eqn:Eg; [|exact I]. cbn [sim2].
+        destruct (Hbody eq_refl (code_len st2 + 2) (zlength (b_below B)) (b_rest B) eq_refl) as [fin3 [_ Hfo3]].
+        exists fin, tip. split; [right; exact Hx|exact Hfo3].
+      - cbn [sim2].
+        destruct (Hbody (code_len st2 + 2) (zlength (b_below B)) (b_rest B) eq_refl) as [fin3 [_ Hfo3]].
+        exists fin, tip. split; [right; exact Hx|exact Hfo3].
+      - right. exact Hx.
+      - right. exact Hx.
+      - exact Hx.
+      - exact I. }
+    fold sc0 y0 B' s0 in Hstep.
+    assert (reachesL orc prog (mk B tip ops y (code_len st) fin) s0) as Hs0
+      by exact (reachesL_trans orc prog _ _ _ Hsc (reachesL_step orc prog _ _ Hstep)).
+    destruct (yblock orc f (fe_st fe) (fe_body fe) y0) as [v y3|y3|y3|v y3|e|x| |]; cbn [body_res nosig] in *;
+      try contradiction.
+    - destruct (gc_clean y3) eqn:Eg; [|exact I]. cbn [sim2].
+      destruct (Hbody eq_refl (code_len st2 + 2) (zlength (b_below B)) (b_rest B) eq_refl) as [fin3 [Hret Hfo3]].
+      exists fin3, (code_len st2 + 2). split; [|exact Hfo3]. rewrite L'.
+      unfold B' in Hret. rewrite (ret_state_caller B ops (y_loc y2) (code_len st2 + 2) v y3 fin3 (y_funs y3)) in Hret.
+      exact (reachesL_trans orc prog _ _ _ Hs0 Hret).
+    - cbn [sim2].
+      destruct (Hbody (code_len st2 + 2) (zlength (b_below B)) (b_rest B) eq_refl) as [fin3 [Hret Hfo3]].
+      exists fin3, (code_len st2 + 2). split; [|exact Hfo3]. rewrite L'.
+      unfold B' in Hret. rewrite (ret_state_caller B ops (y_loc y2) (code_len st2 + 2) v y3 fin3 (y_funs y3)) in Hret.
+      exact (reachesL_trans orc prog _ _ _ Hs0 Hret).
+    - cbn [sim2]. refine (reachesL_stopsL orc _ _ _ _ _ Hs0 Hbody). reflexivity.
+    - cbn [sim2]. refine (reachesL_stopsL orc _ _ _ _ _ Hs0 Hbody). reflexivity.
+    - cbn [sim2]. exact (reachesL_excl orc prog _ _ Hs0 Hbody).
+    - exact I.
+  Qed.
+
+  (** ** All expressions and statements of the fragment *)
+
+  Lemma lsim_of_forall : forall l, Forall ssim l -> lsim l.
+  Proof. intros l H. induction H as [|s r Hs Hr IH]; [exact lsim_nil|exact (Hs r IH)]. Qed.
+
+  Lemma esim_outside : forall e, (forall lp fa fn, f3e lp fa fn e = false) -> esim e.
+  Proof. intros e H lp fa fn st st' pre sc k outer cur HF. rewrite H in HF. discriminate HF. Qed.
+
+  (* for a function literal the induction also carries the simulation of its body *)
+  Definition esim' (e : expr) : Prop :=
+    esim e /\ match e with EFunction _ _ body => lsim body | _ => True end.
+
+  Theorem sim_all3 : (forall e, esim' e) /\ (forall s, ssim s).
+  Proof.
+    apply expr_stmt_ind.
+    - intros l o r [Hl _] [Hr _]. split; [exact (esim_infix l o r Hl Hr)|exact I].
+    - intros o r [Hr _]. split; [exact (esim_prefix o r Hr)|exact I].
+    - intros z. split; [exact (esim_int z)|exact I].
+    - intros x. split; [apply esim_outside; reflexivity|exact I].
+    - intros b. split; [exact (esim_bool b)|exact I].
+    - intros c t alt [Hc _] Ht Ha. split; [|exact I]. apply (esim_if c t alt Hc (lsim_of_forall t Ht)).
+      destruct alt as [b|]; [exact (lsim_of_forall b Ha)|exact I].
+    - intros x. split; [exact (esim_ident x)|exact I].
+    - intros n ps body Hb. pose proof (lsim_of_forall body Hb) as Lb. split; [exact (esim_function n ps body Lb)|exact Lb].
+    - intros h args [Hh _] Ha. split; [|exact I]. apply (esim_call h args Hh).
+      apply Forall_forall. intros x Hx. exact (proj1 (proj1 (Forall_forall _ _) Ha x Hx)).
+    - intros l r _ [Hr _]. split; [|exact I].
+      destruct l as [e1 o e2|o e1|z|fl|bb|c t alt|x|name ps body|fn_ args|e1 e2|str|vs|e1 e2|c body];
+        try (apply esim_outside; reflexivity). exact (esim_assign x r Hr).
+    - intros x. split; [apply esim_outside; reflexivity|exact I].
+    - intros vs _. split; [apply esim_outside; reflexivity|exact I].
+    - intros b i _ _. split; [apply esim_outside; reflexivity|exact I].
+    - intros c b [Hc _] Hb. split; [exact (esim_while c b Hc (lsim_of_forall b Hb))|exact I].
+    - intros n e [He _]. exact (ssim_let n e He).
+    - intros e [He _]. exact (ssim_return e He).
+    - intros e [He Hb].
+      destruct e as [e1 o e2|o e1|z|fl|bb|c t alt|x|name ps body|fn_ args|e1 e2|str|vs|e1 e2|c body];
+        try (apply ssim_expr; [intros; discriminate|exact He]).
+      destruct name as [|c0 nm].
+      + apply ssim_expr; [intros; discriminate|exact He].
+      + exact (ssim_fundecl c0 nm ps body Hb).
+    - intros b Hb. exact (ssim_block b (lsim_of_forall b Hb)).
+    - exact ssim_break.
+    - exact ssim_continue.
+  Qed.
+
+  Theorem lsim_all : forall l, lsim l.
+  Proof. intros l. apply lsim_of_forall. apply Forall_forall. intros s _. apply (proj2 sim_all3). Qed.
+
+  Theorem esim_all : forall e, esim e.
+  Proof. intros e. exact (proj1 (proj1 sim_all3 e)). Qed.
+
+  (** ** Every call is simulated: the hypothesis of the structural induction, by induction on the fuel *)
+
+  Theorem calls_ok : forall prog f, CallOK prog f.
+  Proof.
+    intros prog f. induction f as [f IH] using (well_founded_induction lt_wf).
+    intros fe Hfe B tip y0 fin Hfo Ly.
+    destruct Hfe as [[pre' [Hp' Hs3]] Hl Hip HF [st4 [ce [Hc [Hcode [Hn [Hn65 [Hk Hx]]]]]]]].
+    destruct (body_all (fe_body fe) (lsim_all _) HF (fe_st fe) st4 pre' (length (fe_ps fe)) (fe_ps fe) Hs3 Hp'
+                (Nat.le_refl _) Hl Hc) as [ce_b [k4 [Hs4 [Hk4 [Hcode4 [_ [_ [_ Hbody]]]]]]]].
+    assert (ce_b = ce) as -> by (rewrite Hcode in Hcode4; exact (eq_sym (app_inv_head _ _ _ Hcode4))).
+    rewrite Hs4, leave_context_ltab in Hn. cbn [snd] in Hn.
+    rewrite Hip in *. apply Hbody; try assumption.
+    - lia.
+    - lia.
+  Qed.
+
+  (** ** Whole programs *)
+
+  Definition y_init : yst := mkY mst0 [] [].
+
+  Lemma load_consts_k3 : forall ks h, Forall is_k3 ks -> load_consts ks h = (map kval ks, h).
+  Proof.
+    induction ks as [|k ks IH]; intros h H; [reflexivity|].
+    inversion H as [|? ? Hk Hks]; subst. cbn [load_consts map].
+    destruct Hk as [[z ->]|[ip [n ->]]]; rewrite (IH h Hks); reflexivity.
+  Qed.
+
+  Lemma maybe_trace_k3 : forall ks g, Forall is_k3 ks -> fold_left maybe_trace (map kval ks) g = g.
+  Proof.
+    induction ks as [|k ks IH]; intros g H; [reflexivity|].
+    inversion H as [|? ? Hk Hks]; subst. cbn [map fold_left].
+    destruct Hk as [[z ->]|[ip [n ->]]]; cbn [kval maybe_trace is_heap_val val_loc]; apply IH; exact Hks.
+  Qed.
+
+  Lemma consts_ok3_map : forall ks prog, p_consts prog = map kval ks -> consts_ok3 prog ks.
+  Proof. intros ks prog H i k Hi _. rewrite H, nth_error_map, Hi. reflexivity. Qed.
+
+  (* the observations of a run, given what the machine does from its initial state *)
+  Definition run_obs (bc : bytecode) (r : outcome val) : Prop :=
+    (exists budget, o_result (run_program orc bc budget) = r /\ o_out (run_program orc bc budget) = [])
+    \/ hits_excluded orc bc.
+
+  Theorem compile_run_F3 : forall p bc, in_F3 p = true -> ends_pop p = true -> compile p = Ok bc ->
+    forall fuel,
+    match ystmts orc fuel compiler_new p VNull y_init with
+    | YOk v y' => val_loc v = None -> run_obs bc (Ok v)
+    | YErr k => run_obs bc (Err k)
+    | YFault f => run_obs bc (Fault f)
+    | YExcl => hits_excluded orc bc
+    | _ => True
+    end.
+  Proof.
+    intros p bc HF Hpop H fuel. destruct (compile_inv p bc H) as [st1 [Hc ->]]. clear H.
+    assert (c_symbols compiler_new = ltab [] SGlobal O [] []) as Hs0 by reflexivity.
+    assert (pre_ok [] SGlobal) as Hp0 by (split; [reflexivity|constructor]).
+    destruct (lsim_all p false true false compiler_new st1 [] SGlobal O [] [] HF Hs0 Hp0 (Nat.le_refl _) Hc)
+      as [ce [nb [k' [L _]]]].
+    pose proof L as [CF _].
+    pose proof (cf_nn CF eq_refl) as ->.
+    pose proof (cf_cd CF) as Hce. destruct (cf_cx CF) as [kx [Hkx Hf]].
+    cbn [compiler_new c_code c_constants app] in Hce, Hkx.
+    set (consts := map kval kx).
+    set (prog := mkProgram (ce ++ [byte_of_opcode OHalt]) consts).
+    assert (load_consts (b_constants (mkBytecode (c_constants st1) (c_code st1 ++ [byte_of_opcode OHalt])))
+                        empty_heap = (consts, empty_heap)) as Hload.
+    { cbn [b_constants]. rewrite Hkx. apply load_consts_k3. exact Hf. }
+    set (s0 := vm_start vm_new consts empty_heap).
+    set (B0 := mkB [] [] []).
+    assert (s0 = mk B0 0 [] y_init 0 VNull) as Es0.
+    { unfold s0, vm_start, mk, y_init, mst0. cbn [v_globals v_out vm_new y_m y_loc m_gl m_heap m_gc b_below b_rest b_out rev app].
+      unfold consts. rewrite (maybe_trace_k3 kx gc_new Hf). reflexivity. }
+    assert (code_len st1 = zlength ce) as Lce by (unfold code_len; rewrite Hce; reflexivity).
+    assert (env3 prog compiler_new st1 ce [] 0) as E.
+    { constructor.
+      - split; [reflexivity|]. intros i b Hi _. unfold byte_at. change (code_len compiler_new) with 0.
+        cbn [Z.add]. destruct (Z.of_nat i <? 0) eqn:Ei; [apply Z.ltb_lt in Ei; lia|].
+        rewrite Nat2Z.id. cbn [prog p_code]. rewrite nth_error_app1; [exact Hi|].
+        apply nth_error_Some. rewrite Hi. discriminate.
+      - rewrite Hkx. apply consts_ok3_map. reflexivity.
+      - intros ip []. }
+    assert (callsok prog fuel) as HC by (intros f' _; apply calls_ok).
+    assert (loc_ok SGlobal k' y_init) as Hloc by (intros N; discriminate N).
+    pose proof (stmt_mode p compiler_new st1 [] SGlobal k' [] [] ce [] L prog 0 E ltac:(lia) ltac:(cbn; lia) fuel HC
+                  B0 0 [] y_init VNull VNull (Forall_nil _) Hloc) as Hsim.
+    change (code_len compiler_new) with 0 in Hsim. rewrite <- Es0 in Hsim. rewrite Hpop in Hsim.
+    assert (forall n s1, steps orc prog n s0 = Ok s1 -> excluded prog s1 ->
+              hits_excluded orc (mkBytecode (c_constants st1) (c_code st1 ++ [byte_of_opcode OHalt]))) as Hex.
+    { intros n s1 Hn Hx. exists n, s1. rewrite Hload. cbn [b_code]. rewrite Hce. fold prog. fold s0.
+      split; [|exact Hx]. pose proof (run_loop_reach orc prog n s0 s1 O Hn) as R. rewrite Nat.add_0_r in R.
+      rewrite R. reflexivity. }
+    assert (forall x, stopsL orc prog s0 x -> (forall s', x <> Ok (Continue s')) -> (forall v s', x <> Ok (Halted v s')) ->
+              run_obs (mkBytecode (c_constants st1) (c_code st1 ++ [byte_of_opcode OHalt]))
+                      (match x with Err k => Err k | Fault f => Fault f | _ => OutOfFuel end)) as Hstop.
+    { intros x [[n [s1 [Hn [Hst Hout]]]]|[n [s1 [Hn Hx]]]] Hnc Hnh; [|right; exact (Hex n s1 Hn Hx)].
+      left. exists (n + 1)%nat. eapply run_program_eq; [exact Hload| |exact Hout].
+      cbn [b_code]. rewrite Hce. fold prog. fold s0. rewrite (run_loop_reach orc prog n s0 s1 1 Hn).
+      cbn [run_loop]. rewrite Hst. destruct x as [[s'|v s']| | |]; try reflexivity.
+      - exfalso. exact (Hnc s' eq_refl).
+      - exfalso. exact (Hnh v s' eq_refl). }
+    destruct (ystmts orc fuel compiler_new p VNull y_init) as [v y'|y'|y'|v y'|k0|x0| |]; cbn [sim_full] in *; try exact I.
+    - intros Hv. destruct Hsim as [fin' [tip' [[[n Hn]|[n [s1 [Hn Hx]]]] [_ Hfin]]]]; [|right; exact (Hex n s1 Hn Hx)].
+      rewrite (Hfin eq_refl) in Hn.
+      set (sF := mk B0 tip' [] y' (code_len st1) v) in *.
+      assert (code_at prog (v_ip sF) [byte_of_opcode OHalt]) as Hh.
+      { exists ce, []. split; [reflexivity|]. symmetry. exact Lce. }
+      destruct (step_halt_nh orc prog sF [] Hh Hv) as [s' [Hst Hout]].
+      left. exists (n + 1)%nat. eapply run_program_eq; [exact Hload| |exact Hout].
+      cbn [b_code]. rewrite Hce. fold prog. fold s0. rewrite (run_loop_reach orc prog n s0 sF 1 Hn).
+      cbn [run_loop]. rewrite Hst. reflexivity.
+    - exact (Hstop (Err k0) Hsim ltac:(intros; discriminate) ltac:(intros; discriminate)).
+    - exact (Hstop (Fault x0) Hsim ltac:(intros; discriminate) ltac:(intros; discriminate)).
+    - destruct Hsim as [n [s1 [Hn Hx]]]. exact (Hex n s1 Hn Hx).
+  Qed.
 End Sim.
+
+Print Assumptions sim_all3.
+Print Assumptions calls_ok.
+Print Assumptions compile_run_F3.
